@@ -61,12 +61,22 @@ def zero_crossing_rules(chk):
             ed = [e for e in r.events("lib-call", ZC) if e.name == "numpy.ediff1d" and "where-index" in e.args[0].tags]
             mk = [e for e in r.events("subscript", ZC) if e.index.kind == K_ARRAY and e.index.dtype == "bool" and "where-index" in e.base.tags and
                   isinstance(e.index.note, tuple) and e.index.note and e.index.note[0] == "init"]
+            dfp = [e for e in r.events("lib-call", ZC) if e.name == "numpy.diff" and "where-index" in e.args[0].tags and "prepend" in e.kwargs]
             if ed:
                 tb = ed[0].kwargs.get("to_begin")
                 oks = len(ed) == 1 and tb is not None and tb.has_const() and isinstance(tb.const, (int, float)) and tb.const > 1
                 chk.ob("R-ZC-STRICT", cc + "{first zero}", "the first zero of the series is always kept: its index difference is a literal > 1", oks,
                        derived="to_begin=%s" % ((tb.const if tb.has_const() else "a computed value") if tb is not None else None), loc=ed[0].loc,
                        stmt=ed[0].stmt)
+            elif dfp:
+                # (iii) np.diff(indices, prepend=c): the first difference is indices[0] - c, which passes `> 1` for every first index
+                # (0 included) exactly when c < -1
+                pv = dfp[0].kwargs.get("prepend")
+                okp = len(dfp) == 1 and pv is not None and pv.has_const() and isinstance(pv.const, (int, float)) and pv.const < -1
+                chk.ob("R-ZC-STRICT", cc + "{first zero}", "the first zero of the series is always kept: np.diff(..., prepend=c) needs c < -1 so that "
+                       "indices[0] - c > 1 for a first zero at index 0 or 1", okp,
+                       derived="prepend=%s" % ((pv.const if pv.has_const() else "a computed value") if pv is not None else None), loc=dfp[0].loc,
+                       stmt=dfp[0].stmt, inconclusive=(pv is not None and not pv.has_const()))
             elif mk:
                 m = mk[0].index
                 oks = "alloc:ones" in m.tags and m.note[2] == frozenset(["all-but-first"])
@@ -81,7 +91,8 @@ def zero_crossing_rules(chk):
         pre_cat = [e for e in cats if len(e.args[0].items) == 2 and e.args[0].items[0].kind in (K_LIST, K_TUPLE) and e.args[0].items[0].items is not None
                    and len(e.args[0].items[0].items) == 1 and e.args[0].items[0].items[0].has_const() and e.args[0].items[0].items[0].const == 0
                    and "where-index" in e.args[0].items[1].tags]                                  # np.concatenate(([0], indices))
-        srt = [e for e in r.events("mutation", ZC) if e.how == "ndarray.sort"] + [e for e in r.events("lib-call", ZC) if e.name == "numpy.sort"]
+        srt = [e for e in r.events("mutation", ZC) if e.how == "ndarray.sort"] + \
+            [e for e in r.events("lib-call", ZC) if e.name in ("numpy.sort", "numpy.unique") and "where-index" in e.args[0].tags]   # unique: sorted
         okc = len(cat) == 1 and len(cat[0].args[0].items) == 2 and all("where-index" in i.tags for i in cat[0].args[0].items) and \
             len(cats) == len(cat) + len(pre_cat)
         chk.ob("R-ZC-STRICT", cc + "{assembly}", "result = sorted concatenation of the zero set and the crossing set (no other source of indices)",
@@ -113,6 +124,58 @@ def zero_crossing_rules(chk):
     chk.ob("R-TOL-SUB", c + "(tol<0)", "a negative tolerance raises", not normal, derived="normal exit: %s" % normal, loc=fi.loc())
 
 
+def _running_extreme_pairs(chk, fi, c):
+    """Another design of the per-excursion maximum: a running pair (position, value) instead of candidate lists.  Where the code itself
+    assigns `pos = e` together with `val = A[e]` at two or more places, the pair is `val == A[pos]` by the code's own belief, and every
+    assignment to either variable -- the initial one included -- has to keep it: a pair initialised otherwise lets the first sample
+    lose against, or win over, samples it should not."""
+    def pairs_in(block):
+        out = []
+        for a, b in zip(block, block[1:]):
+            if all(isinstance(x, ast.Assign) and len(x.targets) == 1 and isinstance(x.targets[0], ast.Name) for x in (a, b)):
+                out.append((a, b))
+        for st in block:
+            for fld in ("body", "orelse"):
+                sub = getattr(st, fld, None)
+                if isinstance(sub, list) and sub and isinstance(sub[0], ast.stmt) and not isinstance(st, (ast.FunctionDef, ast.ClassDef)):
+                    out.extend(pairs_in(sub))
+        return out
+
+    def reads_at(v, pos_expr):
+        return isinstance(v, ast.Subscript) and isinstance(v.value, ast.Name) and ast.dump(v.slice) == ast.dump(pos_expr)
+    # only where the loop starts after the first sample (range(1, ...)): a loop from 0 lets the first sample compete by itself, and then
+    # any start value below every |value| is right
+    lps = [n for n in fi.node.body if isinstance(n, ast.For)]
+    if not (len(lps) == 1 and isinstance(lps[0].iter, ast.Call) and ast.unparse(lps[0].iter.func) == "range" and len(lps[0].iter.args) >= 2 and
+            isinstance(lps[0].iter.args[0], ast.Constant) and isinstance(lps[0].iter.args[0].value, int) and lps[0].iter.args[0].value >= 1):
+        return
+    allp = pairs_in(fi.node.body)
+    belief = {}
+    for a, b in allp:
+        for x, y in ((a, b), (b, a)):
+            if reads_at(y.value, x.value) and not isinstance(x.value, ast.Constant):
+                belief.setdefault((x.targets[0].id, y.targets[0].id, y.value.value.id), []).append((x, y))
+    for (pos, val, arr), sites in sorted(belief.items()):
+        if len(sites) < 2:
+            continue
+        # every other assignment to pos or val
+        for st in ast.walk(fi.node):
+            if isinstance(st, ast.Assign) and len(st.targets) == 1 and isinstance(st.targets[0], ast.Name) and st.targets[0].id in (pos, val):
+                if any(st is x or st is y for x, y in sites):
+                    continue
+                mate = [(a, b) for a, b in allp if st is a or st is b]
+                ok = False
+                for a, b in mate:
+                    x, y = (a, b) if a.targets[0].id == pos else (b, a)
+                    if x.targets[0].id == pos and y.targets[0].id == val and reads_at(y.value, x.value) and y.value.value.id == arr:
+                        ok = True
+                chk.ob("R-SW-COVER", c + "{running pair %s/%s: %s}" % (pos, val, norm_stmt(st)),
+                       "%s is %s[%s] wherever either is assigned (as at %d other place(s))" % (val, arr, pos, len(sites)), ok,
+                       derived="`%s` without the matching `%s = %s[...]`" % (norm_stmt(st), val if st.targets[0].id == pos else pos, arr) if not ok
+                       else "paired", loc=fi.loc(st), stmt=norm_stmt(st),
+                       detail="the running maximum does not start from the first sample of the excursion" if not ok else None)
+
+
 def switched_rules(chk):
     P = chk.P
     fi = P.fn(SW)
@@ -134,6 +197,7 @@ def switched_rules(chk):
         elif isinstance(arg, ast.Subscript) and isinstance(arg.slice, ast.Name) and arg.slice.id == var and isinstance(arg.value, ast.Name):
             vals_list, src = a.func.value.id, arg.value.id
     if not (vals_list and idx_list):
+        _running_extreme_pairs(chk, fi, c)
         chk.ob("R-SW-COVER", c, "the loop appends peak_values[i] and i to two candidate lists", False, derived="appends %s" % [ast.unparse(a) for a in apps],
                inconclusive=True, loc=fi.loc(lp))
         return
